@@ -76,6 +76,20 @@ CHECKS = {
              "per-callback write frames are the #modifies obligations of C02/C03 (add_op via contract).",
         technique="contract-based deductive verification: frame/reset postconditions on all exits by path-complete symbolic "
                   "execution of the real entry points with havocking stubs, mechanical state inventory, two-state obligations"),
+    "C09": dict(
+        category="proof",
+        text="Folding contracts with literal values as symbolic mathematical integers (all magnitudes): literal typing equals "
+             "C11 6.4.4.1 per spelling and magnitude class; rendered literals (get_rzil_val / il_read / il_init_var / il_op) "
+             "denote value mod 2^w; folded unary/binary arithmetic and comparisons satisfy the same type+value postcondition as "
+             "the unfolded C11 operator (integer-domain oracle, C-side UB excluded); constant-condition ?: selects the live arm; "
+             "dead-operand removal keeps every operand of a registered effect registered; rm_op_by_name removes exactly the "
+             "named op; sizeof value. Literal division is a BOUNDED stand-in (70 native compilations must raise) and is not "
+             "counted as proved. Refuted instances replay natively: known findings F11 F11b F12 F13 F27 F28.",
+        design_ref="DESIGN.md section 3, C09",
+        note=TRUST + "WF(Number) (value representable in its type) is the folding precondition; add_op via contract; the float "
+             "formatting path of literal division is outside the VC generator (bounded native check instead).",
+        technique="contract-based deductive verification: AST->z3 verification conditions in linear/non-linear integer arithmetic "
+                  "over symbolic literal values on the real folding functions; bounded native stand-in for literal division"),
 }
 
 NOT_APPLICABLE = {
